@@ -25,7 +25,7 @@ Definition dPMsg : dec policy_msg :=
   if tag =? 0 then ps <- dList dRM ;; dRet (PAddRewardPeriods ps)
   else if tag =? 1 then ps <- dList dPD ;; dRet (PAddLppd ps)
   else if tag =? 2 then g <- dField ;; el <- dZ ;; st <- dZ ;; en <- dZ ;; br <- dOptZ ;; dRet (PUpdatePmtpParams g el st en br)
-  else if tag =? 3 then b <- dField ;; r <- dField ;; e <- dBool ;; dRet (PModifyPmtpRates b r e)
+  else if tag =? 3 then b <- dField ;; r <- dField ;; e <- dBool ;; br <- dOptZ ;; dRet (PModifyPmtpRates b r e br)
   else if tag =? 4 then mx <- dZ ;; ep <- dZ ;; a <- dBool ;; dRet (PUpdateLPParams mx ep a)
   else if tag =? 5 then c <- dZ ;; dRet (PModifyLPRates c)
   else d <- dZ ;; rs <- dList dZ ;; dRet (PUpdateSwapFee d rs).
